@@ -326,6 +326,15 @@ def bounds_block(_b):
             except Exception as exc:
                 ok, det = False, f"{type(exc).__name__}: {exc}"[:120]
             obs.append(static_ob(f"{base}/bounds.user_bounds_in_force/{name}|{tag}", ok, det, backend='eval', replay=dict(x, form=tag)))
+        # bounds given for the first parameter only: they hold for it, the defaults for the others
+        first_only = {cls.param_names[0]: (0.125, 0.75)}
+        try:
+            bp = pgm.get_isotherm_model(name, param_bounds=dict(first_only))
+            okp = tuple(bp.param_bounds[cls.param_names[0]]) == (0.125, 0.75) and all(tuple(bp.param_bounds[p_]) == tuple(defaults0[p_]) for p_ in cls.param_names[1:])
+            detp = str(bp.param_bounds)
+        except Exception as exc:
+            okp, detp = False, f"{type(exc).__name__}: {exc}"[:120]
+        obs.append(static_ob(f"{base}/bounds.user_bounds_in_force/{name}|first_parameter_only", okp, detp, backend='eval', replay=dict(x, form='partial')))
         c = pgm.get_isotherm_model(name)
         obs.append(static_ob(f"{base}/bounds.defaults_in_force_after_a_user_bounded_instance/{name}", dict(c.param_bounds) == defaults0, str(c.param_bounds), backend='eval', replay=x))
         first = cls.param_names[0]
